@@ -7,6 +7,8 @@
 -/
 import Pdlv.Wire
 import Pdlv.Runtime
+import Pdlv.Lemmas.Exact
+import Pdlv.Thm.C02
 
 namespace Pdlv
 
@@ -70,5 +72,393 @@ theorem payload_size_beyond_input (c : Cfg) (m sz : Nat) (bs : Bytes) (st : DSta
 
 /-- non-vacuity: on `packet P { _fixed_ = 7 : 8 }` the byte 08 is a FixedValueError -/
 example : decBody { e := .little } (.root "P" (.cons (.chunk [.fixed 8 7]) .nil)) [8] = .err .fixedValue := by rfl
+
+
+/-! ### the decoder accepts nothing but reference encodings (slack-free class) -/
+
+theorem fromBytes_lt (e : Endian) (h : Bytes) : rdInt e h < 2 ^ (8 * h.length) := by
+  cases e with
+  | little => exact fromLE_lt h
+  | big => exact fromBE_lt h
+
+theorem getUint_ok (e : Endian) (w : Nat) (bs : Bytes) (x : Nat) (r : Bytes) (h : getUint e w bs = .ok (x, r)) :
+    x = rdInt e (bs.take (w / 8)) ∧ r = bs.drop (w / 8) ∧
+      (bs.take (w / 8)).length = w / 8 := by
+  simp only [getUint] at h
+  split at h
+  · cases h
+  · rename_i hlen
+    simp only [Outcome.ok.injEq, Prod.mk.injEq] at h
+    exact ⟨by rw [← h.1]; cases e <;> rfl, h.2.symm, by rw [List.length_take]; omega⟩
+
+theorem hasPayload_false_of_modes : ∀ (is : Items), payloadModes is = [] → is.hasPayload = false
+  | .nil, _ => rfl
+  | .cons i r, h => by
+    cases i with
+    | payload m => simp [payloadModes] at h
+    | chunk fs => simpa [Items.hasPayload] using hasPayload_false_of_modes r (by simpa [payloadModes] using h)
+    | array a b c d e => simpa [Items.hasPayload] using hasPayload_false_of_modes r (by simpa [payloadModes] using h)
+    | typedef a b c => simpa [Items.hasPayload] using hasPayload_false_of_modes r (by simpa [payloadModes] using h)
+    | optional a b c d => simpa [Items.hasPayload] using hasPayload_false_of_modes r (by simpa [payloadModes] using h)
+
+mutual
+/-- field and element types: what the decoder consumed is the reference encoding of what it returned -/
+theorem ty_exact (ce cd : Cfg) (hce : ce.mode = .ideal) (hee : ce.e = cd.e) : ∀ (ty : Ty), exactWfTy ty = true →
+    ElemExact (encTy ce ty) (decTy cd ty)
+  | .scalar w, hw => by
+    intro bs x rest hd
+    simp only [exactWfTy, Bool.and_eq_true, beq_iff_eq, decide_eq_true_eq] at hw
+    simp only [decTy] at hd
+    obtain ⟨⟨n, r⟩, h1, h2⟩ := bind_ok _ _ _ hd
+    simp only [Outcome.ok.injEq, Prod.mk.injEq] at h2
+    obtain ⟨rfl, rfl⟩ := h2
+    obtain ⟨hn, hr, hl⟩ := getUint_ok cd.e w bs n r h1
+    have h8 : 8 * (w / 8) = w := by omega
+    have hlt : n < 2 ^ w := by
+      have := fromBytes_lt cd.e (bs.take (w / 8))
+      rw [hl, h8, ← hn] at this; exact this
+    have hb := Nat.pow_le_pow_right (by decide : 2 > 0) (backingOf_ge w hw.2)
+    refine ⟨bs.take (w / 8), ?_, by rw [hr]; exact (List.take_append_drop _ _).symm⟩
+    simp only [encTy]
+    rw [if_neg (by omega)]
+    have hmask : ¬ (n > maskBits w) := by simp only [maskBits]; omega
+    have : elemOutOfRange ce.mode w n = false := by
+      simp only [elemOutOfRange, hce]; exact decide_eq_false hmask
+    simp only [this, Bool.false_eq_true, ↓reduceIte, Outcome.ok.injEq]
+    rw [hn, hee]; exact putUint_getBytes cd.e w _ hl
+  | .enumTy nm en, hw => by
+    intro bs x rest hd
+    simp only [exactWfTy, Bool.and_eq_true, beq_iff_eq, decide_eq_true_eq] at hw
+    simp only [decTy] at hd
+    obtain ⟨⟨n, r⟩, h1, h2⟩ := bind_ok _ _ _ hd
+    simp only at h2
+    split at h2
+    · rename_i hok
+      simp only [Outcome.ok.injEq, Prod.mk.injEq] at h2
+      obtain ⟨rfl, rfl⟩ := h2
+      obtain ⟨hn, hr, hl⟩ := getUint_ok cd.e en.width bs n r h1
+      refine ⟨bs.take (en.width / 8), ?_, by rw [hr]; exact (List.take_append_drop _ _).symm⟩
+      simp only [encTy, hok, ↓reduceIte, Outcome.ok.injEq]
+      rw [hn, hee]; exact putUint_getBytes cd.e en.width _ hl
+    · cases h2
+  | .custom nm w, hw => by
+    intro bs x rest hd
+    simp only [exactWfTy, beq_iff_eq] at hw
+    simp only [decTy] at hd
+    split at hd
+    · cases hd
+    · obtain ⟨⟨n, r⟩, h1, h2⟩ := bind_ok _ _ _ hd
+      simp only [Outcome.ok.injEq, Prod.mk.injEq] at h2
+      obtain ⟨rfl, rfl⟩ := h2
+      obtain ⟨hn, hr, hl⟩ := getUint_ok cd.e w bs n r h1
+      have h8 : 8 * (w / 8) = w := by omega
+      have hlt : n < 2 ^ w := by
+        have := fromBytes_lt cd.e (bs.take (w / 8))
+        rw [hl, h8, ← hn] at this; exact this
+      refine ⟨bs.take (w / 8), ?_, by rw [hr]; exact (List.take_append_drop _ _).symm⟩
+      simp only [encTy, hlt, ↓reduceIte, Outcome.ok.injEq]
+      rw [hn, hee]; exact putUint_getBytes cd.e w _ hl
+  | .struct _ (.root nm items), hw => by
+    intro bs x rest hd
+    simp only [exactWfTy, exactLevel, Bool.and_eq_true, decide_eq_true_eq, Bool.not_eq_true', List.contains_eq_mem,
+      decide_eq_false_iff_not] at hw
+    obtain ⟨hwi, ⟨⟨⟨⟨hnd, hpm⟩, hkb⟩, hids⟩, hnop⟩⟩ := hw
+    simp only [decTy, decBody] at hd
+    obtain ⟨⟨fin, r⟩, h1, h2⟩ := bind_ok _ _ _ hd
+    simp only [Outcome.ok.injEq, Prod.mk.injEq] at h2
+    obtain ⟨rfl, rfl⟩ := h2
+    obtain ⟨hkeys, hpsome⟩ := decItems_ids cd items bs r DState.empty fin h1
+    simp only [DState.empty, List.map_nil, List.nil_append] at hkeys
+    -- the decoded value, and lookups in it
+    have hag : ∀ id y, (id, y) ∈ fin.fields →
+        (Value.obj (fin.fields ++ (match fin.payload with
+          | some p => [("payload", Value.ofBytes p)] | none => []))).get? id = some y := by
+      intro id y hm
+      simp only [Value.get?, Value.fields]
+      rw [List.lookup_append, lookup_of_mem_nodup fin.fields id y (by rw [hkeys]; exact hids) hm]; rfl
+    have hex := items_exact ce cd hce hee items (fin.payload.getD []) _ hnd fin hag
+      (by intro p' hp'; simp [hp']) items bs r DState.empty hwi hkb hpm (fun t ht => ht)
+      (payloadMode_of_modes items hpm) h1
+    obtain ⟨⟨es, he, hbs⟩, _⟩ := hex
+    refine ⟨es, ?_, hbs⟩
+    simp only [encTy, encBody]
+    by_cases hh : items.hasPayload = true
+    · obtain ⟨p, hp⟩ := hpsome hh
+      have hlk : fin.fields.lookup "payload" = none := by
+        rw [List.lookup_eq_none_iff]
+        intro kv hkv
+        simp only [bne_iff_ne, ne_eq]
+        intro hk
+        apply hnop
+        rw [← hkeys]
+        exact List.mem_map.mpr ⟨kv, hkv, hk.symm⟩
+      simp only [hh, ↓reduceIte, hp, Value.get?, Value.fields]
+      rw [List.lookup_append, hlk]
+      simp only [Option.none_or, List.lookup, BEq.rfl, Option.bind_some, valBytes_ofBytes]
+      simpa [hp] using he
+    · have hh' : items.hasPayload = false := by simpa using hh
+      have hpn : fin.payload = none := by
+        rw [(decItems_mono cd items bs r DState.empty fin h1).2.1 hh']; rfl
+      simp only [hh', Bool.false_eq_true, ↓reduceIte]
+      simpa [hpn] using he
+  | .struct _ (.derived ..), hw => by simp [exactWfTy] at hw
+
+/-- **the field list, decoder to encoder**: when the items `is` decode to the final state `fin`, the
+    reference-mode encoder applied to the decoded value writes exactly the octets consumed, and every
+    context entry the items consumed (a size or count) is the one the encoder recomputes -/
+theorem items_exact (ce cd : Cfg) (hce : ce.mode = .ideal) (hee : ce.e = cd.e) (all : Items) (p : Bytes) (v : Value)
+    (hnd : (arrayIds all).Nodup) (fin : DState) (hag : ∀ id x, (id, x) ∈ fin.fields → v.get? id = some x)
+    (hpay : ∀ p', fin.payload = some p' → p' = p) :
+    ∀ (is : Items) (bs rest : Bytes) (st : DState),
+      exactWfItems is = true → (keysBound is).Nodup → (payloadModes is).length ≤ 1 →
+      (∀ t ∈ arrayItems is, t ∈ arrayItems all) → (∀ md ∈ payloadModes is, payloadMode all = some md) →
+      decItems cd is bs st = .ok (fin, rest) →
+      (∃ es, encItems ce all (.ok p) p.length v is = .ok es ∧ bs = es ++ rest) ∧
+      (∀ k y, st.ctx.get k = some y → k ∉ keysBound is → consumes is k = true → Fact all p.length v k y)
+  | .nil, bs, rest, st, _, _, _, _, _, hd => by
+    simp only [decItems, Outcome.ok.injEq, Prod.mk.injEq] at hd
+    refine ⟨⟨[], by simp [encItems], by simp [hd.2]⟩, ?_⟩
+    intro k y _ _ hc
+    cases k <;> simp [consumes, arrayShape, payloadMode] at hc
+  | .cons i r, bs, rest, st, hw, hkb, hpl, harr, hpm, hd => by
+    simp only [exactWfItems, Bool.and_eq_true] at hw
+    obtain ⟨hwi, hwr⟩ := hw
+    simp only [decItems] at hd
+    obtain ⟨⟨st1, b1⟩, h1, h2⟩ := bind_ok _ _ _ hd
+    have hkb_r : (keysBound r).Nodup := by
+      cases i with
+      | chunk fs => simp only [keysBound, List.nodup_append] at hkb; exact hkb.2.1
+      | _ => simpa [keysBound] using hkb
+    have hpl_r : (payloadModes r).length ≤ 1 := by
+      cases i with
+      | payload m => simp only [payloadModes, List.length_cons] at hpl; omega
+      | _ => simpa [payloadModes] using hpl
+    have harr_r : ∀ t ∈ arrayItems r, t ∈ arrayItems all := by
+      intro t ht; apply harr
+      cases i <;> simp [arrayItems, ht]
+    have hpm_r : ∀ md ∈ payloadModes r, payloadMode all = some md := by
+      intro md hmd; apply hpm
+      cases i <;> simp [payloadModes, hmd]
+    obtain ⟨⟨es2, he2, hb2⟩, hfacts⟩ := items_exact ce cd hce hee all p v hnd fin hag hpay r b1 rest st1 hwr hkb_r hpl_r
+      harr_r hpm_r h2
+    obtain ⟨⟨ext, hext⟩, hpk, hck⟩ := decItems_mono cd r b1 rest st1 fin h2
+    have hag1 : ∀ id x, (id, x) ∈ st1.fields → v.get? id = some x :=
+      fun id x hm => hag id x (by rw [hext]; exact List.mem_append_left _ hm)
+    -- assembling the two halves
+    have fin1 : ∀ es1, encItem ce all (.ok p) p.length v i = .ok es1 → bs = es1 ++ b1 →
+        ∃ es, encItems ce all (.ok p) p.length v (.cons i r) = .ok es ∧ bs = es ++ rest := by
+      intro es1 q1 q2
+      exact ⟨es1 ++ es2, by simp [encItems, q1, he2, Outcome.bind], by rw [q2, hb2, List.append_assoc]⟩
+    cases i with
+    | optional id ty cid cval => simp [exactWfItem] at hwi
+    | chunk fs =>
+      simp only [exactWfItem, Bool.and_eq_true, beq_iff_eq, List.all_eq_true] at hwi
+      obtain ⟨hbits, hbf⟩ := hwi
+      simp only [keysBound, List.nodup_append] at hkb
+      obtain ⟨hndc, _, hdisj⟩ := hkb
+      simp only [decItem, decChunk] at h1
+      split at h1
+      · cases h1
+      · rename_i hlen
+        obtain ⟨stc, hc1, hc2⟩ := bind_ok _ _ _ h1
+        simp only [Outcome.ok.injEq, Prod.mk.injEq] at hc2
+        obtain ⟨rfl, rfl⟩ := hc2
+        have hc1' : decChunkFields (cd.mode == .ideal) fs 0 (rdInt cd.e (bs.take (chunkBits fs / 8))) st = .ok stc := by
+          cases hE : cd.e <;> simpa [rdInt, hE] using hc1
+        have hfact1 : ∀ k ∈ chunkKeys fs, ∀ y, stc.ctx.get k = some y → Fact all p.length v k y := by
+          intro k hk y hy
+          rcases bfExact_consumes r fs k hbf hk with ⟨id, rfl⟩ | hc
+          · trivial
+          · exact hfacts k y hy (fun hkr => hdisj k hk k hkr rfl) hc
+        have hce' := chunk_exact (cd.mode == .ideal) all r p.length v
+          (fun md h => hpm_r md (payloadMode_mem r md h)) fs 0 _ 0 st stc hbf hndc hc1' hag1 hfact1
+        have hl : (bs.take (chunkBits fs / 8)).length = chunkBits fs / 8 := by rw [List.length_take]; omega
+        have hlt := fromBytes_lt cd.e (bs.take (chunkBits fs / 8))
+        have h8 : 8 * (chunkBits fs / 8) = chunkBits fs := by omega
+        rw [hl, h8] at hlt
+        simp only [Nat.pow_zero, Nat.div_one, Nat.mul_one, Nat.zero_add, Nat.mod_eq_of_lt hlt] at hce'
+        refine ⟨fin1 (bs.take (chunkBits fs / 8)) ?_ (List.take_append_drop _ _).symm, ?_⟩
+        · simp only [encItem, hce, BEq.rfl, hce', Outcome.bind, Outcome.ok.injEq]
+          rw [hee]; exact putUint_getBytes cd.e _ _ hl
+        · intro k y hy hnk hc
+          simp only [keysBound, List.mem_append, not_or] at hnk
+          have hmono := (decChunkFields_mono _ fs _ _ st stc hc1').2.2 k hnk.1
+          have hc' : consumes r k = true := by
+            cases k <;> simpa [consumes, arrayShape, payloadMode] using hc
+          exact hfacts k y (by rw [hmono]; exact hy) hnk.2 hc'
+    | typedef id ty sb =>
+      simp only [exactWfItem] at hwi
+      obtain ⟨x, hx, rfl⟩ := typedef_ok cd id ty sb bs st st1 b1 h1
+      obtain ⟨es1, q1, q2⟩ := ty_exact ce cd hce hee ty hwi bs x b1 hx
+      have hget : v.get? id = some x := hag1 id x (by simp)
+      refine ⟨fin1 es1 (by simp only [encItem, hget]; exact q1) q2, ?_⟩
+      intro k y hy hnk hc
+      have hc' : consumes r k = true := by
+        cases k <;> simpa [consumes, arrayShape, payloadMode] using hc
+      exact hfacts k y hy (by simpa [keysBound] using hnk) hc'
+    | payload mode =>
+      obtain ⟨p', rfl, hbs, hsz⟩ := payload_item_ok cd mode bs b1 st st1 h1
+      have hr0 : payloadModes r = [] := by
+        simp only [payloadModes, List.length_cons] at hpl
+        cases hr : payloadModes r with
+        | nil => rfl
+        | cons _ _ => simp [hr] at hpl
+      have hpp : p' = p := hpay p' (by rw [hpk (hasPayload_false_of_modes r hr0)])
+      subst hpp
+      refine ⟨fin1 p' (by simp [encItem]) hbs, ?_⟩
+      intro k y hy hnk hc
+      have hall : payloadMode all = some mode := hpm mode (by simp [payloadModes])
+      cases k with
+      | size t =>
+        by_cases ht : t = "_payload_"
+        · subst ht
+          simp only [consumes, BEq.rfl, ↓reduceIte, payloadMode] at hc
+          cases mode with
+          | sized m =>
+            obtain ⟨sz, hsz1, hsz2⟩ := hsz m rfl
+            rw [hsz1] at hy
+            simp only [Option.some.injEq] at hy
+            subst hy
+            refine ⟨fun _ m' hm' => ?_, fun hne => absurd rfl hne⟩
+            rw [hall] at hm'
+            simp only [Option.some.injEq, PayloadMode.sized.injEq] at hm'
+            subst hm'; exact hsz2
+          | last => simp at hc
+          | beforeStatic k => simp at hc
+          | undelimited => simp at hc
+        · have hb : (t == "_payload_") = false := by simpa using ht
+          have hc' : consumes r (.size t) = true := by simpa [consumes, hb, arrayShape] using hc
+          exact hfacts _ y hy (by simpa [keysBound] using hnk) hc'
+      | count t =>
+        have hc' : consumes r (.count t) = true := by simpa [consumes, arrayShape] using hc
+        exact hfacts _ y hy (by simpa [keysBound] using hnk) hc'
+      | esize t => simp [consumes] at hc
+      | val id => simp [consumes] at hc
+    | array id elem ew shape pad =>
+      simp only [exactWfItem, Bool.and_eq_true, Option.isNone_iff_eq_none, bne_iff_ne, ne_eq] at hwi
+      obtain ⟨⟨⟨⟨⟨hpad, hwt⟩, hlw⟩, hidp⟩, hidb⟩, hew⟩ := hwi
+      subst hpad
+      obtain ⟨vs, hda, rfl⟩ := array_item_ok cd id elem ew shape bs b1 st st1 h1
+      have hget : v.get? id = some (.arr vs) := hag1 id _ (by simp)
+      have hnotdyn : ew ≠ .dynamic := by
+        intro h; subst h; simp at hew
+      obtain ⟨es1, q1, q2, qn, qc, qs⟩ := array_exact cd.mode (encTy ce elem) (decTy cd elem)
+        (ty_exact ce cd hce hee elem hwt) ew shape _ _ _ bs vs b1 hnotdyn
+        (fun w hs x b hx => by
+          subst hs
+          exact encTy_static ce elem x b w (by simpa using hew) hx) hda
+      have hlen : es1.length = sumLen (lenTy elem) vs :=
+        encListWith_length (encTy ce elem) (lenTy elem) (fun x b hx => encTy_len ce elem x b hlw hx) vs es1 q1
+      refine ⟨fin1 es1 ?_ q2, ?_⟩
+      · have hcc : checkCount shape vs.length = .ok () := by
+          cases shape with
+          | static n => simp [checkCount, qn n rfl]
+          | _ => rfl
+        simp only [encItem, listField, hget, Outcome.bind, hcc, checkPad, q1, padTo]
+      · intro k y hy hnk hc
+        have hfa := firstArray_of_mem all id elem ew (harr _ (by simp [arrayItems])) hnd
+        cases k with
+        | count t =>
+          by_cases ht : id = t
+          · subst ht
+            simp only [consumes, arrayShape, BEq.rfl, ↓reduceIte, beq_iff_eq, Option.some.injEq] at hc
+            have := qc hc
+            rw [this] at hy
+            simp only [Option.some.injEq] at hy
+            exact ⟨vs, by simp [listField, hget], hy⟩
+          · have hb : (id == t) = false := by simpa using ht
+            have hc' : consumes r (.count t) = true := by simpa [consumes, arrayShape, hb] using hc
+            exact hfacts _ y hy (by simpa [keysBound] using hnk) hc'
+        | size t =>
+          by_cases htp : t = "_payload_"
+          · subst htp
+            have hc' : consumes r (.size "_payload_") = true := by simpa [consumes, payloadMode] using hc
+            exact hfacts _ y hy (by simpa [keysBound] using hnk) hc'
+          · have hbp : (t == "_payload_") = false := by simpa using htp
+            by_cases ht : id = t
+            · subst ht
+              simp only [consumes, hbp, Bool.false_eq_true, ↓reduceIte, arrayShape, BEq.rfl, beq_iff_eq,
+                Option.some.injEq] at hc
+              have := qs hc
+              rw [this] at hy
+              simp only [Option.some.injEq] at hy
+              refine ⟨fun h => absurd h htp, fun _ => ?_⟩
+              have hbb : (id == "_body_") = false := by simpa using hidb
+              simp only [sizeOfTarget, hbp, hbb, Bool.or_self, Bool.false_eq_true, ↓reduceIte]
+              rw [sizeFind_of_firstArray v all id elem ew vs hfa hget, ← hy, hlen]
+            · have hb : (id == t) = false := by simpa using ht
+              have hc' : consumes r (.size t) = true := by simpa [consumes, hbp, arrayShape, hb] using hc
+              exact hfacts _ y hy (by simpa [keysBound] using hnk) hc'
+        | esize t => simp [consumes] at hc
+        | val id' => simp [consumes] at hc
+end
+
+
+/-- **C04, "accepts only the reference language".**  For every packet or struct without parent in the
+    slack-free class (`exactWfBody`: decidable, evaluated by the check on every generated layout — no reserved
+    bits, padding, optional or element-size fields, array size modifiers; every size / count field delimits a
+    later array or the payload), both byte orders, the decoder model in either mode and EVERY byte string: if
+    `decode` returns `(v, rest)` then the reference-mode encoder accepts `v` and writes exactly the octets that
+    were consumed — closed enums, fixed fields, size / count fields, array element sizes all checked on the way
+    in are exactly what the encoder writes on the way out.  No bound on lengths, counts, nesting. -/
+theorem decode_exact (e : Endian) (m : Mode) (nm : String) (items : Items) (hw : exactWfBody (.root nm items) = true)
+    (bs : Bytes) (v : Value) (rest : Bytes) (hd : decBody { e := e, mode := m } (.root nm items) bs = .ok (v, rest)) :
+    ∃ es, encBody { e := e, mode := .ideal } (.root nm items) v = .ok es ∧ bs = es ++ rest := by
+  have := ty_exact { e := e, mode := .ideal } { e := e, mode := m } rfl rfl (.struct nm (.root nm items))
+    (by simpa [exactWfTy, exactWfBody] using hw) bs v rest (by simpa [decTy] using hd)
+  simpa [encTy] using this
+
+/-- `decode_full` accepts `bs` only if `bs` is the reference encoding of the value it returns -/
+theorem decode_full_exact (e : Endian) (m : Mode) (nm : String) (items : Items)
+    (hw : exactWfBody (.root nm items) = true) (bs : Bytes) (v : Value)
+    (hd : decodeFull { e := e, mode := m } (.root nm items) bs = .ok v) :
+    encBody { e := e, mode := .ideal } (.root nm items) v = .ok bs := by
+  simp only [decodeFull] at hd
+  obtain ⟨⟨v', r⟩, h1, h2⟩ := bind_ok _ _ _ hd
+  simp only at h2
+  split at h2
+  · rename_i hr
+    simp only [Outcome.ok.injEq] at h2
+    subst h2
+    obtain ⟨es, q1, q2⟩ := decode_exact e m nm items hw bs v' r h1
+    have : r = [] := by simpa using hr
+    rw [this, List.append_nil] at q2
+    rw [q2]; exact q1
+  · cases h2
+
+/-- … and those octets are the bit-level reference encoding of doc/reference.md -/
+theorem accepted_is_reference (e : Endian) (m : Mode) (nm : String) (items : Items)
+    (hw : exactWfBody (.root nm items) = true) (hr : refWfBody (.root nm items) = true) (bs : Bytes) (v : Value)
+    (hd : decodeFull { e := e, mode := m } (.root nm items) bs = .ok v) :
+    Ref.encode e (.root nm items) v = some bs :=
+  encode_ideal_eq_ref e _ hr v bs (decode_full_exact e m nm items hw bs v hd)
+
+/-- **C04, both directions** on the intersection of the slack-free and the round-trippable class:
+    `decode_full` accepts `bs` with value `v` exactly when `v` is in normal form and `bs` is the
+    reference-mode encoding of `v` -/
+theorem decode_full_iff (e : Endian) (m : Mode) (nm : String) (items : Items)
+    (hw : exactWfBody (.root nm items) = true) (hrt : rtWfBody (.root nm items) = true) (bs : Bytes) (v : Value)
+    (hb : bs.length < usizeMax) :
+    decodeFull { e := e, mode := m } (.root nm items) bs = .ok v ↔
+      (encBody { e := e, mode := .ideal } (.root nm items) v = .ok bs ∧ canonBody (.root nm items) v = v) := by
+  constructor
+  · intro hd
+    have he := decode_full_exact e m nm items hw bs v hd
+    have hrt' := roundtrip_full e m nm items hrt v bs he hb
+    rw [hd] at hrt'
+    simp only [Outcome.ok.injEq] at hrt'
+    exact ⟨he, hrt'.symm⟩
+  · intro ⟨he, hc⟩
+    exact roundtrip_id e m nm items hrt v hc bs he hb
+
+/-! non-vacuity: `packet P { _count_(x): 8, t: 8, x: 16[], _size_(_payload_): 8, _payload_ }` is in the slack-free
+    class, and its decoder accepts `02 07 01 00 02 00 01 aa` -/
+example :
+    let items : Items := .cons (.chunk [.count "x" 8, .scalar "t" 8])
+      (.cons (.array "x" (.scalar 16) (.static 2) .countField none)
+      (.cons (.chunk [.size "_payload_" 8 0]) (.cons (.payload (.sized 0)) .nil)))
+    exactWfBody (.root "P" items) = true ∧
+    (decodeFull { e := .little } (.root "P" items) [2, 7, 1, 0, 2, 0, 1, 0xaa]).isOk = true := by
+  refine ⟨by decide, by rfl⟩
 
 end Pdlv
